@@ -5,6 +5,7 @@ package main
 import (
 	"encoding/json"
 	"fmt"
+	"regexp"
 	"strconv"
 	"strings"
 
@@ -44,6 +45,18 @@ func c06Stage(parser, name string) refmodel.Stage {
 		case `json a, x="b"`:
 			return &refmodel.JSONStage{Labels: []string{"a"}, Exprs: [][2]string{{"x", "b"}}}
 		}
+		// generic: json l1="path1", l2="path2"
+		if ms := c06ExprRe.FindAllStringSubmatch(strings.TrimPrefix(name, "json "), -1); len(ms) > 0 {
+			st := &refmodel.JSONStage{}
+			for _, m := range ms {
+				path, err := strconv.Unquote(`"` + m[2] + `"`)
+				if err != nil {
+					panic("bad stage " + name)
+				}
+				st.Exprs = append(st.Exprs, [2]string{m[1], path})
+			}
+			return st
+		}
 	case "logfmt":
 		switch name {
 		case "logfmt":
@@ -63,6 +76,92 @@ func c06Stage(parser, name string) refmodel.Stage {
 		return &refmodel.UnpackStage{}
 	}
 	panic("unknown stage " + parser + "/" + name)
+}
+
+var c06ExprRe = regexp.MustCompile(`(\w+)="((?:[^"\\]|\\.)*)"`)
+
+// ---- nested documents and the path expressions that address them -------------------------------
+
+// c06Tree is a JSON value whose leaves are distinct strings, so that an expression resolving to a wrong
+// element is seen.
+type c06Tree struct {
+	kind string // leaf, arr, obj
+	kids []*c06Tree
+	keys []string
+}
+
+// c06Trees(d): all trees of depth <= d: a leaf, arrays of 1..maxArr subtrees, objects {k:T} and {k:T,m:T}.
+func c06Trees(d, maxArr int, sub []*c06Tree) []*c06Tree {
+	out := []*c06Tree{{kind: "leaf"}}
+	if d == 0 {
+		return out
+	}
+	if sub == nil {
+		sub = c06Trees(d-1, maxArr, nil)
+	}
+	var arr func(kids []*c06Tree)
+	arr = func(kids []*c06Tree) {
+		if len(kids) > 0 {
+			out = append(out, &c06Tree{kind: "arr", kids: append([]*c06Tree(nil), kids...)})
+		}
+		if len(kids) == maxArr {
+			return
+		}
+		for _, k := range sub {
+			arr(append(kids, k))
+		}
+	}
+	arr(nil)
+	for _, a := range sub {
+		out = append(out, &c06Tree{kind: "obj", kids: []*c06Tree{a}, keys: []string{"k"}})
+		for _, b := range sub {
+			out = append(out, &c06Tree{kind: "obj", kids: []*c06Tree{a, b}, keys: []string{"k", "m"}})
+		}
+	}
+	return out
+}
+
+func (t *c06Tree) leaves() int {
+	if t.kind == "leaf" {
+		return 1
+	}
+	n := 0
+	for _, k := range t.kids {
+		n += k.leaves()
+	}
+	return n
+}
+
+// render writes the tree; every leaf gets the next distinct value and its path is recorded.
+func (t *c06Tree) render(sb *strings.Builder, path string, leafPaths, innerPaths *[]string) {
+	switch t.kind {
+	case "leaf":
+		fmt.Fprintf(sb, `"s%d"`, len(*leafPaths))
+		*leafPaths = append(*leafPaths, path)
+	case "arr":
+		*innerPaths = append(*innerPaths, path)
+		sb.WriteByte('[')
+		for i, k := range t.kids {
+			if i > 0 {
+				sb.WriteByte(',')
+			}
+			k.render(sb, fmt.Sprintf("%s[%d]", path, i), leafPaths, innerPaths)
+		}
+		sb.WriteByte(']')
+		*innerPaths = append(*innerPaths, fmt.Sprintf("%s[%d]", path, len(t.kids))) // one past the end: resolves to nothing
+	case "obj":
+		*innerPaths = append(*innerPaths, path)
+		sb.WriteByte('{')
+		for i, k := range t.kids {
+			if i > 0 {
+				sb.WriteByte(',')
+			}
+			fmt.Fprintf(sb, "%q:", t.keys[i])
+			k.render(sb, path+"."+t.keys[i], leafPaths, innerPaths)
+		}
+		sb.WriteByte('}')
+		*innerPaths = append(*innerPaths, path+".zz")
+	}
 }
 
 func c06Check(r *vkit.Run, in c06Input) bool {
@@ -299,6 +398,56 @@ func c06Run(r *vkit.Run) {
 			visit(c06Input{Line: d + "x", Stage: "json a", Kind: "garbage-after", Parser: "json"})
 		}
 	}
+	// JSON path expressions over nested documents: every leaf path alone, every ordered pair of leaf paths in
+	// one stage, every path to an inner node (opaque) and one path past the end of every array / object
+	depth2 := c06Trees(2, 3, nil)
+	trees := depth2
+	if r.Thorough() {
+		var small []*c06Tree
+		for _, t := range depth2 {
+			if t.leaves() <= 3 {
+				small = append(small, t)
+			}
+		}
+		trees = append(trees, c06Trees(3, 2, small)...)
+	}
+	nPathCases := 0
+	for _, t := range trees {
+		var sb strings.Builder
+		var leafPaths, innerPaths []string
+		sb.WriteString(`{"a":"v","b":`)
+		t.render(&sb, "b", &leafPaths, &innerPaths)
+		sb.WriteString(`,"c":["t"]}`)
+		doc := sb.String()
+		stage := func(exprs ...string) string {
+			var parts []string
+			for i, e := range exprs {
+				parts = append(parts, fmt.Sprintf("%s=%s", []string{"x", "y"}[i], strconv.Quote(e)))
+			}
+			return "json " + strings.Join(parts, ", ")
+		}
+		for _, p := range leafPaths {
+			nPathCases++
+			visit(c06Input{Line: doc, Pre: nPathCases%2 == 0, Stage: stage(p), Kind: "wellformed", Parser: "json"})
+		}
+		for _, p := range innerPaths {
+			nPathCases++
+			visit(c06Input{Line: doc, Stage: stage(p), Kind: "wellformed", Parser: "json"})
+		}
+		if len(leafPaths) <= 6 {
+			for _, p := range leafPaths {
+				for _, q := range leafPaths {
+					if p != q {
+						nPathCases++
+						visit(c06Input{Line: doc, Stage: stage(p, q), Kind: "wellformed", Parser: "json"})
+					}
+				}
+				nPathCases++
+				visit(c06Input{Line: doc, Stage: stage(p, "c[0]"), Kind: "wellformed", Parser: "json"})
+			}
+		}
+	}
+	r.Note("json_path_cases", fmt.Sprint(nPathCases))
 	// logfmt: records of <= 3 pairs over keys {a,b,k_1} x values
 	lfVals := []string{"v", "", `"with space"`, `"q\"x"`, "5", `"é"`, `"a=b"`, "x.y/z"}
 	var lfDocs []string
@@ -382,7 +531,7 @@ func c06Run(r *vkit.Run) {
 		}
 	}
 	visit(c06Input{Line: "not json", Stage: "unpack", Kind: "prefix", Parser: "unpack"})
-	r.Note("bounds", fmt.Sprintf("JSON: %d documents (<=%d fields over keys {a,b,a.b,'x y'} x 16 values incl. escapes, numbers, booleans, null, nested; duplicate keys; two whitespace styles) x 8 json forms x with/without pre-existing labels, every strict prefix of a subset; logfmt: %d records x 4 forms + 7 malformed; regexp: 4 patterns x 16 lines; pattern: 4 patterns x 25 value pairs; unpack: 30 packed entries and all their strict prefixes", len(docs), maxFields, len(lfDocs)))
+	r.Note("bounds", fmt.Sprintf("JSON: %d documents (<=%d fields over keys {a,b,a.b,'x y'} x 16 values incl. escapes, numbers, booleans, null, nested; duplicate keys; two whitespace styles) x 8 json forms x with/without pre-existing labels, every strict prefix of a subset; path expressions: every nested document of depth <= 2 (arrays of <= 3, objects of <= 2; thorough: depth 3 over the small subtrees) with distinct leaves x every leaf path, every ordered pair of leaf paths in one stage, every inner path and every path one past the end; logfmt: %d records x 4 forms + 7 malformed; regexp: 4 patterns x 16 lines; pattern: 4 patterns x 25 value pairs; unpack: 30 packed entries and all their strict prefixes", len(docs), maxFields, len(lfDocs)))
 }
 
 func c06Replay(r *vkit.Run, v vkit.Violation) *vkit.Violation {
